@@ -264,6 +264,11 @@ var miscFamily = []string{
 	"&[0-9] [0-4]? [0-9] / '(' 'x' ')' / [a-z]+",
 	"<[+\\-]?> [0-9]+ / '(' 'x' ')' / [a-z]+",
 	"([+\\-] / 'e')? [0-9]+ / '(' 'x' ')' / [a-z]+",
+	// ranges that end at the largest code point (the sentinel is above it), alone, last in a rule and under repetition
+	"[\\0x80-\\0x10FFFF]", "'a' [\\0x80-\\0x10FFFF]", "([\\0x80-\\0x10FFFF] / [a-y])+ 'z'", "[^\\0x80-\\0x10FFFF] .", "[[\\0xE0-\\0x10FFFF]]*",
+	// captures inside captures (directly and through a rule that captures), with an action reading text afterwards
+	"< 'x' <'y'+> 'z' > {p.n += len(text)}", "< 'a' < 'b' > > {p.n += len(text)} 'c'", "< Rc 'z' > {p.n += len(text)}",
+	"< 'x' (<'y'> / 'w') 'z' > {p.n += len(text)}", "(< 'x' <'y'>? > {p.n += len(text)})+",
 }
 
 // switchFamily: three-way choices with disjoint first characters whose alternatives begin with every
